@@ -426,14 +426,24 @@ def r3_run_sentinels(ctx: Ctx) -> None:
     nxt = [gac.node_containing(c) for c in calls_in(ac.node) if call_name(c) == "self.next"]
     rets = [r for r in walk_no_nested(ac.node) if isinstance(r, ast.Return) and r.value is not None]
     ok = False
-    if len(nxt) == 1 and len(rets) == 1:
+    if nxt and rets:
         from ..match import canon
         from ..match import canon_test, inline, last_assignments
-        rexpr = inline(rets[0].value, last_assignments(ac.node))
-        rt, rpol = canon_test(rexpr)
-        conds = gac.path_conditions(nxt[0], ac.node)
-        # next() runs exactly when the returned value is true
-        ok = (rt, rpol) in conds or any(t in (f"{unparse(rexpr)} is True", f"({unparse(rexpr)}) is True") and pol for t, pol in conds)
+        # next() runs exactly when the returned value is true: every return has a next() before it that is reached under the very test it returns
+        # (one pair in the confirmed layout, one pair per branch when the polarity flag is branched on first)
+        per_ret = []
+        for r_ in rets:
+            rexpr = inline(r_.value, last_assignments(ac.node))
+            rt, rpol = canon_test(rexpr)
+            rn = gac.node_of(r_)
+            hit = False
+            for n_ in nxt:
+                conds = gac.path_conditions(n_, ac.node)
+                guarded = (rt, rpol) in conds or any(t in (f"{unparse(rexpr)} is True", f"({unparse(rexpr)}) is True") and pol for t, pol in conds)
+                if guarded and rn in gac.reachable([m for m, _l in gac.succ[n_]]):
+                    hit = True
+            per_ret.append(hit)
+        ok = all(per_ret) and len(nxt) == len(rets)
     ctx.check(ok, "Scanner.accept:consumes-when-true", "a successful accept consumes one character: next() is called exactly when the returned value is true")
     for fn in ctx.repo.all_functions():
         if not in_scope(fn):
